@@ -89,8 +89,21 @@ Definition vals_for (o : arg) : bytes :=
       end
   end.
 
+(** what an arm of [case "${prev}"] assigns to COMPREPLY, as far as it does not depend on the file system *)
+Inductive vals := VWords (l : list bytes) | VCur | VNothing | VFiles.
+Definition vals_kind (o : arg) : vals :=
+  match possible_values o with
+  | Some vs =>
+      let names := map pv_name (filter (fun pv => negb (pv_hide pv)) vs) in
+      (* under [IFS=$'\n'] (FilePath) the space separated list is a single word *)
+      if hint_eqb (a_get_hint o) HFilePath then VWords (if is_nil names then [] else [intercalate (lit " ") names])
+      else VWords names
+  | None => match a_get_hint o with HDirPath => VNothing | HOther => VCur | _ => VFiles end
+  end.
+Record detail := mkDetail { d_key : bytes; d_lines : list bytes; d_vals : vals }.
+
 (** one [--long)] / [-s)] arm of [case "${prev}"]: the list of its lines *)
-Definition detail_arm (o : arg) (key : bytes) : list bytes :=
+Definition detail_lines (o : arg) (key : bytes) : list bytes :=
   let compopt := match a_get_hint o with
                  | HFilePath => Some (lit "compopt -o filenames")
                  | HDirPath => Some (lit "compopt -o plusdirs")
@@ -107,8 +120,10 @@ Definition detail_arm (o : arg) (key : bytes) : list bytes :=
       | None => [] end)
   ++ [lit "return 0"; lit ";;"].
 
+Definition detail_arm (o : arg) (key : bytes) : detail := mkDetail key (detail_lines o key) (vals_kind o).
+
 (** [option_details_for_path] for the command found at the path: the arms, in order *)
-Definition option_details (p : cmd) : list (list bytes) :=
+Definition option_details (p : cmd) : list detail :=
   flat_map (fun o =>
       (match get_long_and_visible_aliases o with
        | Some longs => map (fun l => detail_arm o (lit "--" ++ l)) longs | None => [] end)
@@ -137,11 +152,11 @@ Definition find_path (c : cmd) (path : bytes) : option cmd :=
   find_subcommand_with_path c (tl (split_dd path)).
 Definition all_options_for_path (c : cmd) (path : bytes) : option (list bytes) :=
   match find_path c path with Some p => opts_tokens p | None => None end.
-Definition option_details_for_path (c : cmd) (path : bytes) : option (list (list bytes)) :=
+Definition option_details_for_path (c : cmd) (path : bytes) : option (list detail) :=
   match find_path c path with Some p => Some (option_details p) | None => None end.
 
 (** ---- bash.rs: subcommand_details ---- *)
-Record bcase := mkCase { k_label : bytes; k_opts : list bytes; k_level : N; k_details : list (list bytes) }.
+Record bcase := mkCase { k_label : bytes; k_opts : list bytes; k_level : N; k_details : list detail }.
 Definition subcommand_case (c : cmd) (sc : bytes) : option bcase :=
   match all_options_for_path c sc, option_details_for_path c sc with
   | Some o, Some d => Some (mkCase (mangle sc) o (N.of_nat (List.length (split_dd sc))) d)
@@ -179,9 +194,9 @@ Definition bash_table (c : cmd) : option table :=
 
 (** ---- the script text ---- *)
 Definition nl : bytes := [10].
-Definition render_details (d : list (list bytes)) : bytes :=
+Definition render_details (d : list detail) : bytes :=
   intercalate (nl ++ lit "                ")
-    ([] :: map (intercalate (nl ++ lit "                    ")) d).
+    ([] :: map (fun a => intercalate (nl ++ lit "                    ") (d_lines a)) d).
 Definition render_trans (t : list (bytes * bytes * bytes)) : bytes :=
   intercalate (nl ++ lit "            ")
     ([] :: map (fun e => fst (fst e) ++ lit "," ++ snd (fst e) ++ lit ")" ++ nl ++
@@ -259,13 +274,28 @@ Definition lookup_case (t : table) (st : bytes) : option bcase :=
 (** [compgen -W "${opts}" -- "${cur}"]: the words of the list that start with [cur] *)
 Definition compgen_W (words : list bytes) (cur : bytes) : list bytes :=
   filter (fun w => starts_with w cur) words.
-(** the function body for a command line whose words before the cursor are subcommand words
-    (the first branch [${cur} == -* || COMP_CWORD -eq level], or the fall-through with a
-    [prev] that is not an option): COMPREPLY *)
+(** the whole function for [COMP_WORDS = words] (at least the command word and the word under the
+    cursor, which is last), [COMP_CWORD = len - 1], called as [_fn words[0]].
+    Assumes words without IFS white space or glob characters ([for i in ${COMP_WORDS[@]}] is unquoted;
+    an empty word disappears).  [None]: the reply comes from [compgen -f] (file system). *)
 Definition run_state (t : table) (words : list bytes) : bytes :=
-  fold_left (step (k_label (t_root t)) (match words with w :: _ => w | [] => [] end) (t_trans t)) words [].
-Definition bash_complete (t : table) (words : list bytes) (cur : bytes) : list bytes :=
-  match lookup_case t (run_state t (words ++ (if is_nil cur then [] else [cur]))) with
-  | Some k => compgen_W (k_opts k) cur
-  | None => []
+  fold_left (step (k_label (t_root t)) (match words with w :: _ => w | [] => [] end) (t_trans t))
+            (filter (fun w => negb (is_nil w)) words) [].
+Definition bash_complete (t : table) (words : list bytes) : option (list bytes) :=
+  let cur := last words [] in
+  let prev := last (removelast words) [] in
+  let cword := N.of_nat (List.length words) - 1 in
+  match lookup_case t (run_state t words) with
+  | None => Some []
+  | Some k =>
+      if starts_with cur (lit "-") || (cword =? k_level k) then Some (compgen_W (k_opts k) cur)
+      else match find (fun a => beq (d_key a) prev) (k_details k) with
+           | Some a => match d_vals a with
+                       | VWords l => Some (compgen_W l cur)
+                       | VCur => Some [cur]
+                       | VNothing => Some []
+                       | VFiles => None
+                       end
+           | None => Some (compgen_W (k_opts k) cur)
+           end
   end.
